@@ -91,6 +91,7 @@ def project (prop : String) (os : List HObs) : String :=
   | "C15" => per fun o => (match o.res with | .stats _ _ _ _ => fmtRes o.res | r => if isEmitRes r then fmtRes r else "")
   | "C14" => per fun o => (match o.res with | .sinkStats _ _ _ _ => fmtRes o.res | _ => "")
   | "C06" => per fun o => if o.evs.contains .flushed then fmtRes o.res ++ "|F" else ""
+  | "C19" => per fun o => if o.evs.contains .flushed then "F" else ""
   | "C16" => per fun o => evs (fun e => match e with | .enter _ _ | .handled _ _ _ => true | _ => false) o
   | "C20" => per fun o => if o.res == .panic then "panic" else ""
   | _ => per fmtObs1
